@@ -10,7 +10,8 @@ const std::vector<std::string> kAccOptions = {
   "acc:indquadeq", "acc:indquadge", "acc:indquadle", "acc:linfunccon",
   "acc:linrange", "acc:log", "acc:loga", "acc:max", "acc:min", "acc:not", "acc:numberofconst", "acc:numberofvar",
   "acc:or", "acc:pl", "acc:pow", "acc:quadeq", "acc:quadfunccon", "acc:quadge", "acc:quadle", "acc:quadrange",
-  "acc:sin", "acc:sinh", "acc:sos1", "acc:sos2", "acc:tan", "acc:tanh"};
+  "acc:sin", "acc:sinh", "acc:sos1", "acc:sos2", "acc:tan", "acc:tanh",
+  "acc:quadcone", "acc:rotatedquadcone", "acc:expcone"};
 
 sim::Json model_scenario(const gen::Model& m, bool ampl_flag, bool binary) {
   sim::Json sc = base_scenario(gen::emit_nl(m, binary), ampl_flag);
@@ -79,6 +80,10 @@ std::vector<std::string> acc_profile(sim::Rng& rng) {
     case 4: out.push_back("acc:linrange=0"); if (rng.chance(0.5)) out.push_back("acc:quadrange=0"); break;
     default: { int n = (int)rng.range(10, 30); for (int i = 0; i < n; ++i) off(kAccOptions[rng.below(kAccOptions.size())]); break; }
   }
+  // cone recognition modes (converter options, not acceptance levels)
+  if (rng.chance(0.15)) out.push_back("cvt:socp=" + std::to_string(rng.below(3)));
+  if (rng.chance(0.10)) out.push_back("cvt:socp2qc=" + std::to_string(rng.below(3)));
+  if (rng.chance(0.08)) out.push_back("cvt:expcones=" + std::to_string(rng.below(2)));
   // remove duplicates (keep the first)
   std::vector<std::string> uniq;
   for (auto& s : out) {
